@@ -383,6 +383,8 @@ type ttxInstance struct {
 	// NoFlag: the header of this instance does not carry the subtitle flag (C6). Only the choice of a page when none is
 	// given looks at that flag: an instance of the page being read is an instance all the same
 	NoFlag bool `json:"no_subtitle_flag,omitempty"`
+	// NoErase: the header does not carry the erase flag (C4). An instance shows the rows sent with it, whatever the flag
+	NoErase bool `json:"no_erase_flag,omitempty"`
 }
 
 type ttxStream struct {
@@ -476,7 +478,7 @@ func (s ttxStream) render() ([]byte, []ttxExpCue) {
 		}
 	}
 	sel := func(in ttxInstance) ttxHeader {
-		return ttxHeader{Mag: s.Mag, Tens: s.Tens, Units: s.Units, Subtitle: !in.NoFlag, Erase: true, Serial: s.Serial, C12: in.C12, C13: in.C13, C14: in.C14}
+		return ttxHeader{Mag: s.Mag, Tens: s.Tens, Units: s.Units, Subtitle: !in.NoFlag, Erase: !in.NoErase, Serial: s.Serial, C12: in.C12, C13: in.C13, C14: in.C14}
 	}
 	otherMag := s.Mag%8 + 1
 	distractorText := func(y uint8, txt string) []byte {
@@ -961,6 +963,7 @@ func genTTXStream(t *rapid.T) ttxStream {
 			in.Rows, in.C12, in.C13, in.C14, in.SplitAt = prev.Rows, prev.C12, prev.C13, prev.C14, 0
 		}
 		in.NoFlag = (s.OptPage || i > 0) && rapid.IntRange(0, 5).Draw(t, "noflag") == 0
+		in.NoErase = rapid.IntRange(0, 3).Draw(t, "noerase") == 0
 		s.Instances = append(s.Instances, in)
 		pts += rapid.Int64Range(3600, 90000*20).Draw(t, "gap")
 	}
